@@ -38,6 +38,9 @@ from .values import (
     fresh_fun,
     veq,
     vite,
+    QUO,
+    REM,
+    divmod_axiom,
 )
 
 
@@ -51,6 +54,17 @@ class Obligation:
         self.expect = expect  # 'valid' (hyps => goal) | 'sat' (cover: hyps satisfiable)
         self.model_vars = model_vars or {}
         self.size_terms = size_terms or []
+        self.definitional = {}
+
+
+class _PyRaise(Exception):
+    def __init__(self, exc):
+        self.exc = exc
+
+
+class _ForkNeeded(Exception):
+    def __init__(self, cond):
+        self.cond = cond
 
 
 class FunV(V):
@@ -63,10 +77,13 @@ class State:
     def __init__(self, env=None, pc=None):
         self.env = env or {}
         self.pc = pc or []
+        self.decided = {}
 
     def fork(self):
         env = {k: (v.copy() if isinstance(v, ListV) else v) for k, v in self.env.items()}
-        return State(env, list(self.pc))
+        out = State(env, list(self.pc))
+        out.decided = dict(self.decided)
+        return out
 
     def assume(self, f):
         f = B(f)
@@ -124,6 +141,10 @@ class Engine:
         self.used_contracts = set()
         self.inlined = set()
         self.perm_registry = []
+        self.rules_used = set()
+        self.definitional = {}
+        self.listings = {}
+        self.global_axioms = []
 
     # ------------------------------------------------------------ parameters
     def make_param(self, name, sort, st):
@@ -187,7 +208,7 @@ class Engine:
     def verify(self, qualname, variant=None):
         """Generate obligations for one function (one variant of optional params)."""
         K = self.contracts[qualname]
-        F = self.repo.get(qualname)
+        F = self.repo.get(qualname.split("@")[0])
         if F is None:
             raise Unsupported(f"function {qualname} not found in the repository")
         self.func, self.contract = F, K
@@ -309,6 +330,8 @@ class Engine:
         if n:
             name = f"{name}~{n}"
         hyps, goal2, consts = skolemize(list(st.pc), B(goal))
+        hyps.append(divmod_axiom())
+        hyps.extend(self.global_axioms)
         # Seed the e-graph: E-matching can only instantiate the permutation axioms
         # (patterns F(i) / G(v)) at terms that exist.  mark is a fresh uninterpreted predicate, so
         # asserting mark(t) constrains nothing (conservative) but makes the terms F(c), G(c) available.
@@ -320,7 +343,9 @@ class Engine:
                         hyps.append(mark(F_(term)))
                         hyps.append(mark(G_(term)))
         sizes = [n_ for (_f, _g, n_) in self.perm_registry] + [v.t for v in getattr(self, "params", {}).values() if isinstance(v, IntV)]
-        self.obls.append(Obligation(name, kind, self.func.qualname, hyps, goal2, model_vars=getattr(self, "model_vars", None), size_terms=sizes))
+        ob = Obligation(name, kind, self.func.qualname, hyps, goal2, model_vars=getattr(self, "model_vars", None), size_terms=sizes)
+        ob.definitional = self.definitional
+        self.obls.append(ob)
 
     def check_post(self, st, val):
         K = self.contract
@@ -334,8 +359,20 @@ class Engine:
         if K.ensures is None:
             return
         val = self.adapt_result(val, K, c)
-        goal = K.ensures(c, *self.params.values(), val)
         hy = State(st.env, list(st.pc))
+        post_lemmas = getattr(K.cls, "post_lemmas", None)
+        if post_lemmas is not None:
+            for lname, lo, hi, Pf in post_lemmas(c, *self.params.values(), val):
+                # proved by induction on i in [lo, hi]; afterwards available as a fact
+                lo_t, hi_t = Z(lo), Z(hi)
+                self.emit(f"lemma[{lname}]-base", hy, z3.Implies(lo_t <= hi_t, B(Pf(IntV(lo_t)))), tag)
+                i = fresh("ind")
+                step = z3.ForAll([i], z3.Implies(z3.And(i >= lo_t, i < hi_t, B(Pf(IntV(i)))), B(Pf(IntV(i + 1)))))
+                self.emit(f"lemma[{lname}]-step", hy, step, tag)
+                j = fresh("indq")
+                body = B(Pf(IntV(j)))
+                hy.assume(z3.ForAll([j], z3.Implies(z3.And(j >= lo_t, j <= hi_t), body)))
+        goal = K.ensures(c, *self.params.values(), val)
         for f in c.side:
             hy.assume(f)
         for j, conj in enumerate(_conjuncts(B(goal))):
@@ -390,6 +427,29 @@ class Engine:
         return finished + [("fall", s, None) for s in states]
 
     def exec_stmt(self, node, st):
+        """A call to a contracted function whose contract documents an exception forks the
+        statement: one path where the callee raises (the exception propagates), one where it
+        does not."""
+        has_call = any(isinstance(n_, ast.Call) for n_ in ast.walk(node)) and not isinstance(node, (ast.For, ast.While, ast.If, ast.FunctionDef))
+        snap = st.fork() if has_call else None
+        mark = len(self.obls)
+        try:
+            return self._exec_stmt(node, st)
+        except _PyRaise as r:
+            return [("raise", st, r.exc)]
+        except _ForkNeeded as f:
+            if snap is None:
+                raise Unsupported("callee exception inside a compound statement header")
+            del self.obls[mark:]
+            out = []
+            for truth in (True, False):
+                s2 = snap.fork()
+                s2.assume(f.cond if truth else z3.Not(f.cond))
+                s2.decided[f.cond.get_id()] = truth
+                out += self.exec_stmt(node, s2)
+            return out
+
+    def _exec_stmt(self, node, st):
         if isinstance(node, ast.Expr):
             if isinstance(node.value, (ast.Yield, ast.YieldFrom)):
                 self.do_yield(node.value, st)
@@ -471,8 +531,9 @@ class Engine:
 
     def assign(self, tgt, val, st):
         if isinstance(tgt, ast.Name):
-            if isinstance(val, ListV):
-                val = val  # aliasing of local lists is not modelled; lists are copied on fork only
+            for other_name, other in st.env.items():
+                if other_name != tgt.id and isinstance(other, SeqV) and tgt.id in other.meta.get("captures", ()):
+                    raise Unsupported(f"'{tgt.id}' is rebound while the lazy generator '{other_name}' that captures it is still live")
             st.env[tgt.id] = val
             return
         if isinstance(tgt, (ast.Tuple, ast.List)):
@@ -505,6 +566,8 @@ class Engine:
     def exec_for(self, node, st):
         ordinal = node._ordinal
         it = self.ev(node.iter, st)
+        if isinstance(it, TupV):
+            return self.unroll_for(node, it.items, st)
         if isinstance(it, SetV):
             raise Unsupported("for-loop over a set (order unspecified)")
         seq = self.as_seq(it, st)
@@ -551,6 +614,29 @@ class Engine:
         else:
             results.append(("fall", exit_st, None))
         return results
+
+    def unroll_for(self, node, items, st):
+        """A loop over a tuple of statically known arity (e.g. *others) is unrolled."""
+        live = [st]
+        done = []
+        for item in items:
+            nxt = []
+            for s in live:
+                self.assign(node.target, item, s)
+                for kind, s2, val in self.exec_block(node.body, s):
+                    if kind in ("fall", "continue"):
+                        nxt.append(s2)
+                    elif kind == "break":
+                        done.append(("fall", s2, None))
+                    else:
+                        done.append((kind, s2, val))
+            live = nxt
+        for s in live:
+            if node.orelse:
+                done += self.exec_block(node.orelse, s)
+            else:
+                done.append(("fall", s, None))
+        return done
 
     def exec_while(self, node, st):
         ordinal = node._ordinal
@@ -786,11 +872,9 @@ class Engine:
                     raise Unsupported("division by a non-positive constant")
                 # z3 div/mod with a positive constant divisor coincide with Python's floor semantics
                 return IntV(x / yc) if isinstance(op, ast.FloorDiv) else IntV(x % yc)
-            # symbolic divisor: explicit quotient, requires y > 0
+            # symbolic divisor: explicit quotient (axiomatised functions), requires y > 0
             self.emit("divisor-positive", st, y > 0)
-            q, r = fresh("quo"), fresh("rem")
-            st.assume(z3.And(x == q * y + r, r >= 0, r < y))
-            return IntV(q) if isinstance(op, ast.FloorDiv) else IntV(r)
+            return IntV(QUO(x, y)) if isinstance(op, ast.FloorDiv) else IntV(REM(x, y))
         raise Unsupported(f"binary operator {type(op).__name__} on unbounded ints")
 
     def ev_BoolOp(self, node, st):
@@ -948,7 +1032,7 @@ class Engine:
         if isinstance(src, SetV):
             names = [n.id for n in ast.walk(g.target) if isinstance(n, ast.Name)]
             nvars = len(names)
-            env0 = st.env
+            env0 = dict(st.env)
 
             def bind(xs):
                 s2 = State(dict(env0), list(st.pc))
@@ -974,10 +1058,25 @@ class Engine:
                 return self.ev(elt, s2)
 
             return BagV(dom, src.arity, eltf)
+        if isinstance(src, TupV):
+            outs = []
+            for item in src.items:
+                s2 = State(dict(st.env), list(st.pc))
+                self.assign(g.target, item, s2)
+                keep = [self.truth(self.ev(c_, s2), s2) for c_ in g.ifs]
+                if keep:
+                    raise Unsupported("filtered comprehension over a fixed tuple")
+                outs.append(self.ev(elt, s2))
+            return TupV(outs)
         seq = self.as_seq(src, st)
-        env0 = st.env
+        # Snapshot of the environment at creation.  A real generator expression looks its free
+        # variables up lazily; the two coincide unless a captured name is rebound before the
+        # generator is consumed - `assign` refuses that case (Unsupported) for generators kept in
+        # a local.
+        env0 = {k: (v.copy() if isinstance(v, ListV) else v) for k, v in st.env.items()}
         pc0 = list(st.pc)
         eng = self
+        captures = {n.id for part in [elt] + list(g.ifs) for n in ast.walk(part) if isinstance(n, ast.Name)} - _target_names(g.target)
 
         def elem_state(i):
             s2 = State(dict(env0), list(pc0))
@@ -1000,9 +1099,12 @@ class Engine:
                 del eng.obls[mark:]  # already emitted for the arbitrary index
                 return v
 
-            return SeqV(seq.n, at, kind)
+            return SeqV(seq.n, at, kind, {"captures": captures} if kind == "gen" else None)
         # filtered: prefix-count characterisation
-        return self.filtered(seq, g, elt, st, kind, elem_state)
+        out = self.filtered(seq, g, elt, st, kind, elem_state)
+        if kind == "gen":
+            out.meta["captures"] = captures
+        return out
 
     def filtered(self, seq, g, elt, st, kind, elem_state):
         eng = self
@@ -1053,6 +1155,7 @@ class Engine:
         ]
         for a in ax:
             st.assume(a)
+            self.definitional[a.get_id()] = (cnt.name(), sel.name())
         out = SeqV(cnt(n), lambda k: val(sel(k)), kind, {"filter": {"n": n, "pred": pred, "val": val, "cnt": cnt, "sel": sel}})
         return out
 
@@ -1094,9 +1197,57 @@ class Engine:
             return self.ev(node.body, s2)
         raise Unsupported("call of a nested def")
 
+    def inline_call(self, F, args, st):
+        """Symbolically execute the body of a small uncontracted helper at the call site
+        (only for functions listed in the caller contract's `inline`)."""
+        env = {}
+        names = list(F.params)
+        fixed = args[: len(names)]
+        for nm, v in zip(names, fixed):
+            env[nm] = v
+        if len(fixed) < len(names):
+            raise Unsupported(f"inline call of {F.qualname}: missing arguments")
+        if F.vararg:
+            env[F.vararg] = TupV(args[len(names):])
+        elif len(args) > len(names):
+            raise Unsupported(f"inline call of {F.qualname}: too many arguments")
+        saved_ord = {}
+        k_ord = 1000
+        for n_ in ast.walk(ast.Module(body=F.body, type_ignores=[])):
+            if isinstance(n_, (ast.For, ast.While)):
+                saved_ord[n_] = getattr(n_, "_ordinal", None)
+                n_._ordinal = k_ord
+                k_ord += 1
+        s0 = State(env, list(st.pc))
+        outs = self.exec_block(F.body, s0)
+        vals = []
+        for kind, s, val in outs:
+            if kind == "return":
+                vals.append((s, val))
+            elif kind == "fall":
+                vals.append((s, NONE))
+            else:
+                raise Unsupported(f"inline call of {F.qualname}: path ends in {kind}")
+        self.inlined.add(F.qualname)
+        if len(vals) == 1:
+            for f in vals[0][0].pc[len(st.pc):]:
+                st.assume(f)
+            return vals[0][1]
+        base = len(st.pc)
+        out = vals[-1][1]
+        for s, v in reversed(vals[:-1]):
+            cond = z3.And(s.pc[base:]) if len(s.pc) > base else z3.BoolVal(True)
+            out = vite(cond, v, out)
+        return out
+
     def call_by_contract(self, name, args, ctx=None, st=None, kwargs=None):
         K = self.contracts.get(name)
         if K is None:
+            K = self.contracts.get(f"{name}@{len(args)}")
+        if K is None:
+            F = self.repo.get(name)
+            if F is not None and self.contract is not None and name in getattr(self.contract.cls, "inline", ()) and st is not None:
+                return self.inline_call(F, list(args), st)
             raise Unsupported(f"call to {name} which has no contract")
         self.used_contracts.add(name)
         c = ctx or dsl.SymCtx(self)
@@ -1114,6 +1265,23 @@ class Engine:
                 vals.append(NONE if d is None else IntV(d) if isinstance(d, int) and not isinstance(d, bool) else BoolV(d))
             else:
                 raise Unsupported(f"call to {name}: missing argument '{nm}'")
+        if st is not None and K.raises is not None:
+            cond = K.raises(c, *vals)
+            exc = K.raises_type if isinstance(K.raises_type, str) else (K.raises_type or ("Exception",))[0]
+            if isinstance(cond, bool):
+                if cond:
+                    raise _PyRaise(exc)
+            else:
+                bt = B(cond)
+                cc = BoolV(bt).concrete()
+                if cc is True:
+                    raise _PyRaise(exc)
+                if cc is None:
+                    known = st.decided.get(bt.get_id())
+                    if known is None:
+                        raise _ForkNeeded(bt)
+                    if known:
+                        raise _PyRaise(exc)
         if st is not None and K.requires:
             pre = K.requires(c, *vals)
             for f in c.side:
